@@ -71,7 +71,7 @@ def observe(v):
 
 
 def S__(i, v, ret=None):
-    RECORDS.append((i, "CALL" if v is None else observe(v)))
+    RECORDS.append((i, "CALL" if (v is None and ret is not None) else observe(v)))   # S__(i, None, f): a call site
     return Blank() if ret is None else ret
 
 
